@@ -360,10 +360,15 @@ class PoolGen:
         self.reset()
         for _ in range(r.choice([2, 3, 4])):
             self.open_conn(mode=r.choice(["ack", "ack", "slow"]))
-        for h in r.sample(HOSTS, r.choice([1, 2, 3])):
-            self.connect(h)
-        for c in r.sample(CLIENTS, r.choice([1, 2])):
-            self.connect(c)
+        if self.cfg.get("allclients"):
+            # every node a light client: all their first keep-alives reach the billing code
+            for n in NODES:
+                self.connect(n, full=False)
+        else:
+            for h in r.sample(HOSTS, r.choice([1, 2, 3])):
+                self.connect(h)
+            for c in r.sample(CLIENTS, r.choice([1, 2])):
+                self.connect(c)
         if r.random() < 0.5:
             self.addnode(r.choice(ACCTS), r.choice(CLIENTS))
         if r.random() < 0.5:
